@@ -74,6 +74,7 @@ func checkKeyComparators(w *World, r *Report) {
 			})
 			// (b) lossy conversions, in the comparator and the package helpers it calls
 			lossy := ""
+			lossyText := ""
 			seen := map[*ssa.Function]bool{}
 			var scan func(g *ssa.Function, depth int)
 			scan = func(g *ssa.Function, depth int) {
@@ -93,6 +94,13 @@ func checkKeyComparators(w *World, r *Report) {
 						if h := y.Call.StaticCallee(); h != nil && isTwigFn(h) {
 							scan(h, depth+1)
 						}
+						// Value.String() of a key that is not known to be of kind String is the
+						// same text ("<int Value>") for every key of its type
+						if h := y.Call.StaticCallee(); h != nil && h.String() == "(reflect.Value).String" && len(y.Call.Args) == 1 {
+							if reflectGuarded(g, reflectSite{in: y, recv: y.Call.Args[0], method: "String", legal: kindSet("String")}) == "" {
+								lossyText = w.posOf(y.Pos())
+							}
+						}
 					}
 				})
 			}
@@ -100,6 +108,8 @@ func checkKeyComparators(w *World, r *Report) {
 			switch {
 			case bad != "":
 				r.bad("R03.3", ssaName(fn), construct, w.posOf(c.Pos()), "the comparator returns a constant at "+bad+" without having compared the two keys (only their kinds, or nothing): distinct keys tie, a stable sort keeps them in MapKeys order, and the loop / first / keys result follows Go's random map order")
+			case lossyText != "":
+				r.bad("R03.3", ssaName(fn), construct, w.posOf(c.Pos()), "keys are compared by reflect.Value.String() ("+lossyText+") without their kind being known to be String: for every other kind that text is the same for all keys (\"<int Value>\"), distinct keys tie and stay in random map order")
 			case lossy != "":
 				r.bad("R03.3", ssaName(fn), construct, w.posOf(c.Pos()), "keys are converted from a 64-bit integer to float before they are compared ("+lossy+"): distinct integer keys above 2^53 compare equal and stay in random map order")
 			default:
